@@ -241,6 +241,36 @@ def fam_cc_flags(widths, nids=2):
             yield E.ExprCond(E.ExprOp(op, bit), E.ExprId("p%d" % w, w), E.ExprId("q%d" % w, w))
 
 
+# operator names the expression constructor / the architectures know but that have no explicit lowering
+FLAG_EXTRA = [("CC_sOVR", 1, "cc"), ("CC_sNOOVR", 1, "cc"), ("FLAG_SIGN_ADD", 2, "flag")]
+
+
+def fam_flag_names(widths):
+    """Every FLAG_* / CC_* operator name (the lowered ones and FLAG_EXTRA) on all-constant, all-identifier and mixed
+    operand tuples, bare and as the condition of a conditional: constant folding of flags must terminate and be
+    idempotent for every operator name, not only for the ones a lowering exists for."""
+    E = _E()
+    ops = [(n, 1, "flag") for n in FLAG1] + [(n, 2, "flag") for n in FLAG2] + [(n, 3, "flag3") for n in FLAG3]
+    ops += [(n, ar, "cc") for n, ar in CC] + FLAG_EXTRA
+    for w in widths:
+        consts = sorted(set([0, 1, (1 << w) - 1, 1 << (w - 1), (1 << (w - 1)) - 1]))
+        wl = [E.ExprInt(c, w) for c in consts] + [E.ExprId("a%d" % w, w), E.ExprId("b%d" % w, w)]
+        bl = [E.ExprInt(0, 1), E.ExprInt(1, 1), E.ExprId("c1", 1), E.ExprId("d1", 1)]
+        for name, ar, kind in ops:
+            if kind == "cc":
+                if w != widths[0]:
+                    continue
+                pools = [bl] * ar
+            elif kind == "flag3":
+                pools = [wl, wl, bl]
+            else:
+                pools = [wl] * ar
+            for args in itertools.product(*pools):
+                e = E.ExprOp(name, *args)
+                yield e
+                yield E.ExprCond(e, E.ExprId("p%d" % w, w), E.ExprId("q%d" % w, w))
+
+
 def fam_ext_cmp(widths, nids=1):
     """Comparisons / conditions over extensions and constants: ext(X) cmp cst, ext(X) cmp ext(Y),
     (ext(X) op cst) ? A : B, smod(ext, ext|int), slices of extensions and of ops over extensions."""
